@@ -126,7 +126,7 @@ def run(chk):
     chk.rule("R14.1", "QSW/TNW axes always come from the snapshot in the reference frame")
     chk.rule("R14.2", "congruence M C Mᵀ, M = m2 @ m1 with the transposition on the local→reference arm only")
     chk.rule("R14.3", "a covariance in its state's frame follows the state")
-    r14_1(chk)
-    r14_2(chk)
-    r14_3(chk)
+    chk.guard(r14_1, chk)
+    chk.guard(r14_2, chk)
+    chk.guard(r14_3, chk)
     chk.assume("to_qsw / to_tnw are proper rotations built from the given state (C17)")
